@@ -30,6 +30,8 @@ type Options struct {
 	Deadline time.Time
 	MaxExecs int64
 	Trace    bool
+	Prefix   []int32 // sequential explorers: replay exactly this operation list
+	MaxDepth int
 }
 
 type Found struct {
